@@ -128,7 +128,7 @@ pub fn install() {
                     }
                 }
             }
-            let quiet = QUIET.with(|q| *q.borrow());
+            let quiet = QUIET.with(|q| *q.borrow()) && std::env::var_os("VERIF_DEBUG_PANICS").is_none();
             if !quiet {
                 eprintln!("panic: {} at {}", message, location);
             }
